@@ -33,3 +33,10 @@ claim("C06", "fault_enumeration", "exhaustive single-bit flips and truncations o
 claim("C07", "exploration", "Hypothesis type-directed round trips + structure-aware byte edits + atheris coverage-guided fuzzing; oracle: re-encode == consumed bytes, strict reference decoder, id == sha256d",
       "Values of every consensus type and wire message round-trip field by field; for byte strings offered to the consensus decoders (valid encodings with padded VLQs, altered tags, counts +-1, trailing data, byte edits; random bytes; ~1.5M coverage-guided atheris executions per quick run) a returning decoder implies re-encoding equals the consumed bytes, agreement with a strict reference decoder, and id = double SHA-256 of the canonical encoding; ids checked for objects decoded from bytes, read back from a BlockStore and built in memory. Found and led to the repair of C07-F1 (non-canonical VLQ) and C07-F2 (unencodable reward data).",
       "Trusted: reference encoder/decoder in vf/refmodel.py; atheris campaigns only approximately reproducible (saved inputs are the reproducible unit).", "DESIGN.md 4/C07")
+
+claim("C17", "exploration", "exhaustive small lists x all single edits + Hypothesis lists/edit sequences vs reference merkle root and independent proof walk",
+      "All list lengths 1..9 (quick) / 1..12 (thorough), every position and every single structural edit (substitute, swap, rotate, remove, append, duplicate incl. the last entry): the commitment equals the reference root and changes unless the list is unchanged; every inclusion proof reproduces the root (recomputed independently over the proof structure) and contains the entry; random lists up to 300 with edit sequences; calc_merkle_root_hash agrees with the reference over transaction ids.",
+      "Trusted: reference merkle root (odd element promoted). Ids equal to inner nodes (hash pre-images) are not generated.", "DESIGN.md 4/C17")
+claim("C18", "exploration", "exhaustive over the pinned checkpoint table + Hypothesis wrong ids; unpatched deep-state scenario; recorded real blocks with real scrypt vs independent reference",
+      "All 327 checkpointed heights: the checkpoint id passes, generated wrong ids (random, one bit off, same prefix/suffix, another height's checkpoint) are refused, free heights are not refused; with nothing patched, candidates at 162,999 / 163,000 / 163,001 on fabricated bases behave as skip / refuse / fully validate; genesis and the five recorded real blocks keep their ids, re-encode byte-identically, pass add_block with the real scrypt, and their evidence equals an independent reference (scrypt N=2^15,r=8,p=1; blake2b-256; sha256d).",
+      "Trusted: pinned copies of the table and blocks (vf/data), the scrypt package, fabricated deep bases.", "DESIGN.md 4/C18")
